@@ -89,8 +89,8 @@ def run(ctx):
                 ctx.failures.append(dict(f, case=payload))
             records.append((payload, c["params"], steps, list(w.hist), w, c.get("expect", {})))
         if not ctx.replay:
-            nwalks, lo, hi = (10, 120, 360) if ctx.tier == "quick" else (80, 200, 1500)
-            budget = 40 if ctx.tier == "quick" else 1200
+            nwalks, lo, hi = (8, 100, 300) if ctx.tier == "quick" else (80, 200, 1500)
+            budget = 30 if ctx.tier == "quick" else 1200
             for k in range(nwalks):
                 if time.time() - t0 > budget:
                     ctx.notes.append("walk budget reached after %d walks" % k)
